@@ -22,7 +22,8 @@ ENGINES = {
  "ident": ("engines/ident.cc", "real Tracer::StartSpan/Span/samplers/random id generator/runtime context with scripted sampler, sequential id generator and capturing exporter"),
  "ctx": ("engines/ctx.cc", "real Context/RuntimeContext/Scope (header-only API) driven from 2-3 simulated tasks sharing a family of contexts; lock-step stack and persistent-map models"),
  "logs": ("engines/logs.cc", "real LoggerProvider/Logger/ReadWriteLogRecord/multi+simple+batch log processors with active spans per task and caller-buffer release"),
- "metrics": ("engines/metrics.cc", "real MeterProvider/Meter/sync+async storages/aggregations/views with pull-reader stubs and real periodic reader, clock strata"),
+ "metrics": ("engines/metrics.cc", "real MeterProvider/Meter/sync storages/temporal storage/aggregations/views/attribute maps with pull-reader stubs collected from simulated tasks; base-4 coded measurements"),
+ "async": ("engines/async.cc", "real observable instruments/ObservableRegistry/AsyncMetricStorage/LastValue+Sum aggregations and SyncMetricStorage(kGauge) with scripted callbacks, callbacks added/removed while collections run, clock strata"),
 }
 CHECKS = {
  "C11": ("queue", "seeded search over interleavings of every atomic step of 1-3 producers and one consumer (and 2-3 spin-lock contenders) with spurious CAS failures and task stalls; exactly-once, per-producer FIFO, failure legitimacy, occupancy, leak/double-free, mutual exclusion and bounded liveness checked on every run", "DESIGN.md section 4 (C11)"),
@@ -36,7 +37,7 @@ CHECKS = {
  "C06": ("metrics", "seeded search over recorder tasks racing collector tasks for 1-3 readers of mixed temporality; base-4 coded measurements make exactly-once per reader decidable; abutting delta intervals under a non-repeating system clock", "DESIGN.md section 4 (C06)"),
  "C07": ("metrics", "histogram values split over collection cycles/readers while recording; one-shot histogram model, lossless merge", "DESIGN.md section 4 (C07)"),
  "C08": ("metrics", "key order/duplicates per call, allow-lists, cardinality limits, several cycles, mixed readers; series identity, count <= limit, conservation through the overflow series", "DESIGN.md section 4 (C08)"),
- "C17": ("metrics", "callbacks added/removed while collections run, 1-3 readers, clock strata; once per collection, never after removal, last value / totals / per-reader deltas", "DESIGN.md section 4 (C17)"),
+ "C17": ("async", "callbacks added/removed while collections run, 1-3 readers, clock strata; once per collection, never after removal, last value / totals / per-reader deltas", "DESIGN.md section 4 (C17)"),
 }
 built = [e for e in ENGINES if os.path.exists("/verif/" + ENGINES[e][0])]
 claimed = sorted(p for p in CHECKS if CHECKS[p][0] in built and p not in set(os.environ.get("VERIF_UNCLAIMED", "").split(",")))
